@@ -1,14 +1,17 @@
 #!/bin/bash
-# benigneval.sh <dir-with-A/B/C> : apply each behaviour-preserving patch to the dev worktree, run every claimed check,
-# list failed obligations (= false alarms), revert. Usage: tools/benigneval.sh /tmp/seed/out/C04n
+# benigneval.sh <dir-with-A/B/C> : apply each behaviour-preserving patch (kept under /verif/benign/<round-dir>/<A|B|C>/) to a scratch worktree ($DEV),
+# run every claimed check, list failed obligations (= false alarms), revert.
+# Usage: git -C /repo worktree add --detach /tmp/sv/dev HEAD; for d in benign/*; do tools/benigneval.sh $d; done
+# (C14n/B was written before fix F10 and no longer applies; C19n/A re-reports the known keep-session finding under a new key)
 DEV=${DEV:-/tmp/sv/dev}
+mkdir -p /tmp/sv/vtmp && cp /verif/known_findings.txt /tmp/sv/vtmp/
 P=$(python3 -c "import json;print(','.join(c['property_id'] for c in json.load(open('/verif/MANIFEST.json'))['checks']))")
 for d in "$1"/*/; do
   [ -f "$d/patch.diff" ] || continue
   cd $DEV && git checkout -q -- . && git reset -q
   if git apply "$d/patch.diff" 2>/dev/null || git apply --3way "$d/patch.diff" 2>/dev/null; then
     if ! (cd $DEV && GOFLAGS=-mod=mod GOPROXY=off GOSUMDB=off GOTOOLCHAIN=local go build ./... >/dev/null 2>&1); then echo "$d: DOES NOT BUILD"; git checkout -q -- .; continue; fi
-    r=$(/verif/bin/gaeacheck -prop "$P" -repo $DEV -verif /tmp/sv/vtmp -no-evidence 2>&1 | grep "^FAILED-OBLIGATION" | cut -c1-330)
+    r=$(${BIN:-/verif/bin/gaeacheck} -prop "$P" -repo $DEV -verif /tmp/sv/vtmp -no-evidence 2>&1 | grep "^FAILED-OBLIGATION" | cut -c1-330)
     if [ -z "$r" ]; then echo "$d: quiet"; else echo "$d: FALSE ALARM"; echo "$r"; fi
   else
     echo "$d: PATCH DOES NOT APPLY"
